@@ -4,6 +4,7 @@
 import GfsModel.Sequence
 import GfsSpec.SeqSpec
 import GfsProofs.SplitLemmas
+import GfsModel.Seqinfo
 import GfsGen.Facts
 import GfsModel.ExpectedSrc
 
@@ -28,6 +29,13 @@ theorem C03_roundtrip (st : PadStyle) (dir base rng pad ext : Bytes)
     ∃ s, Seq.parse st (dir ++ base ++ rng ++ pad ++ ext) = .ok s ∧
       s.str = dir ++ base ++ rng ++ pad ++ ext :=
   str_unambig st dir base rng pad ext h
+
+/-- Format with the documented template: evaluated by the template model (literal text and
+    niladic `{{fn}}` actions, GfsModel.Seqinfo) it IS String(), for every sequence — so the
+    round trip above also holds for `Format("{{dir}}{{base}}{{frange}}{{pad}}{{ext}}")`. -/
+theorem C03_format_default (s : Seq) :
+    Seqinfo.format s "{{dir}}{{base}}{{frange}}{{pad}}{{ext}}".toList = some s.str := by
+  simp [Seqinfo.format, Seqinfo.formatAux, Seqinfo.templateFn, Seq.str, List.takeWhile, List.dropWhile]
 
 /-- non-vacuity: basenames ending in range-directive letters, multi-part and digit-bearing
     extensions, negative and multi-component ranges, empty dir / range / ext are in the domain -/
